@@ -100,7 +100,7 @@ theorem ext_eq_zext (env : Env) (a : Var) : ext env a = zext a.size (fun i t => 
 /-- an initial state without opaque objects -/
 theorem RD_init {c : Module.Parts α} (S : DftOpsSound c nn) (env : Env) (s : CState α)
     (hR : R nn hsz vars env s.heap) :
-    RD S hsz vars ⟨env, fun _ => none, fun _ => none, fun _ => none⟩ s := by
-  refine ⟨hR, ?_, ?_, ?_⟩ <;> intro _ _ h <;> cases h
+    RD S hsz vars ⟨env, fun _ => none, fun _ => none, fun _ => none, fun _ => none⟩ s := by
+  refine ⟨hR, ?_, ?_, ?_, ?_⟩ <;> intro _ _ h <;> cases h
 
 end Spq.Prog
